@@ -416,9 +416,10 @@ def renderTarget (r : Route) (t : Target) : Str :=
   (if t.tags.isEmpty then [] else " tags \"".toList ++ join [','] t.tags ++ ['"']) ++
   (if t.opts.isEmpty then [] else " opts \"".toList ++ join [' '] ((sortOpts t.opts).map renderOpt) ++ ['"'])
 
-/-- `Route.config(false)`: targets without traffic share (`Weight <= 0`) are not written -/
+/-- `Route.config(false)`: every target is written (only the display with effective weights,
+`config(true)`, leaves out targets without traffic share — repaired: `String()` used to omit them too) -/
 def routeConfig (r : Route) : List Str :=
-  (r.targets.filter (fun t => decide (0 < t.weight))).map (renderTarget r)
+  r.targets.map (renderTarget r)
 
 def insertHostDesc (h : Str) : List Str → List Str
   | [] => [h]
